@@ -239,6 +239,23 @@ pub fn record_api(opts: &Opts) -> i32 {
     }
     let mut order: Vec<usize> = vec![];
     for rep in 0..3 { for i in 0..exprs.len() { order.push((i * 7 + rep * 3) % exprs.len()); } }
+    if proc_id == 0 && opts.get("no-failprobe").is_none() {
+        // what a FAILED call leaves behind: a probe is compiled, then an input that is refused part-way
+        // (after some of its resources, template text or open parentheses have been handled), then the probe
+        // again -- every visit of the probe must give what its first visit gave
+        const FAILS: &[&str] = &["-printf 'a %p %d\\n'", "-printf '%s:%p %Z'", "-fprintf out '%p %s %l\\n'", "-printf 'x\\c'", "-printf '%p\\c%s'",
+            "-name x -fprint f1 -user root", "-iname Y -fprint0 f2 -o -regex r", "-fprint a -fprint b -fls c", "-mmin -3 -anewer x",
+            "( -name a -o ( -name b", "( ( ( ( -true", "! ! ! (", "-size 99999999999999999999k", "-perm 99999", "-uid", "-printf '%'", "-type q", "-name 'a", "-true )"];
+        const PROBES: &[&str] = &["-printf '%s %p\\n'", "-type f -printf \"%s %p\\n\"", "-fprintf out '%p\\n'", "-name y -fprint g",
+            "( -name a -o -name b ) -name c -print0", "-mmin -1", "-perm -u+x -size +1k", "( ( -true ) ) -o ( -false )"];
+        for (fi, f) in FAILS.iter().enumerate() { for (pi, p) in PROBES.iter().enumerate() {
+            // every failure before the three probes that use the same machinery, and before one of the others in turn
+            if !(pi == 0 || pi == 3 || pi == 4 || pi == fi % PROBES.len()) { continue; }
+            let base = exprs.len();
+            exprs.push(p.to_string()); exprs.push(f.to_string());
+            order.push(base); order.push(base + 1); order.push(base);
+        } }
+    }
     let mut seq = 0u64;
     // let the clock advance a few times during the history (right after failed compilations), so that
     // anything carried over from an earlier call shows against the [t0,t1] window of a later one
@@ -293,10 +310,54 @@ pub fn compile_text(opts: &Opts) -> i32 {
     0
 }
 
+/// every "kind" of character once in every place where user text travels: all of ASCII, the C1 controls,
+/// and representatives of the other classes (no-break space, soft hyphen, case-folding oddities, combining
+/// marks, separators, format characters, the ends of the 2-, 3- and 4-byte ranges, private use, non-characters)
+pub fn codepoint_sweep() -> Vec<String> {
+    let mut cps: Vec<u32> = (1u32..=0x9f).collect();
+    cps.extend([0xa0, 0xad, 0xb5, 0xdf, 0xff, 0x100, 0x130, 0x131, 0x17f, 0x300, 0x345, 0x7ff, 0x800, 0x1e9e, 0x200b, 0x200d, 0x2028, 0x2029,
+                0x202e, 0x2060, 0x212a, 0x3000, 0xd7ff, 0xe000, 0xfb01, 0xfe0f, 0xfeff, 0xfffd, 0xfffe, 0xffff, 0x10000, 0x1d11e, 0x1f600, 0xe0001, 0x10ffff]);
+    let mut v = vec![];
+    for cp in cps {
+        let c = match char::from_u32(cp) { Some(c) => c, None => continue };
+        v.push(format!("-name a{}b", c));
+        v.push(format!("-iname {}", c));
+        if c != '\'' { v.push(format!("-path '*{}*' -print", c)); v.push(format!("-printf 'a{}b\\n'", c)); v.push(format!("-fprintf f{} '%p{}'", c, c)); }
+        if c != '"' { v.push(format!("-ipath \"{}{}\"", c, c)); v.push(format!("-xattr-match \"n{}\" \"v{}\"", c, c)); }
+        v.push(format!("-pool a{}", c));
+        v.push(format!("-xattr {}x -fprint o{}", c, c));
+        v.push(format!("-uid {}1", c));
+        v.push(format!("-true {}", c));
+        v.push(format!("-printf '%{{xattr:a{}}}\\n'", c));
+    }
+    v
+}
+
+/// digit runs of every length up to 24 (and a few longer ones) in every numeric place, with and without unit:
+/// conversions that are exact for the usual widths and overflow, wrap or panic beyond
+pub fn digit_run_sweep() -> Vec<String> {
+    let mut v = vec![];
+    let lens: Vec<usize> = (1..=24).chain([31, 32, 33, 40, 64, 65, 100, 300]).collect();
+    for kw in ["-perm ", "-perm -", "-perm /", "-uid ", "-gid +", "-inum ", "-links -", "-size ", "-size +", "-mtime ", "-amin -", "-threads ", "-stripe-count ",
+               "-mirror-count +", "-maxdepth ", "-printf '\\", "-printf '%", "-type "] {
+        for d in ['1', '3', '7', '9', '0'] {
+            for n in &lens {
+                let run: String = std::iter::repeat(d).take(*n).collect();
+                let close = if kw.contains('\'') { "'" } else { "" };
+                v.push(format!("{}{}{}", kw, run, close));
+                if kw.starts_with("-size") { for u in ["c", "k", "T"] { v.push(format!("{}{}{}", kw, run, u)); } }
+                if kw.starts_with("-mtime") || kw.starts_with("-amin") { v.push(format!("{}{}d", kw, run)); }
+            }
+        }
+    }
+    v
+}
+
 /// corpus for C03 / C17: valid inputs, every prefix, single-character mutations, deep nesting,
 /// long inputs, numeric boundaries
 pub fn total_corpus(rng: &mut Rng, count: usize) -> Vec<String> {
-    let mut v: Vec<String> = vec![];
+    let mut v: Vec<String> = codepoint_sweep();
+    v.extend(digit_run_sweep());
     let mut k = 0usize;
     while v.len() < count {
         k += 1;
